@@ -76,6 +76,9 @@ pub struct WorldI {
     pub tgrant: HashSet<usize>,
     pub events: Vec<String>,
     pub origin_of_uri: HashMap<String, usize>,
+    /// `is_open` reports only whether the connection is open (not upgraded); readiness is then visible
+    /// through `poll_ready` alone, as the `PoolableConnection` / `Connection` traits allow.
+    pub lax_open: bool,
 }
 
 #[derive(Clone, Default)]
@@ -311,7 +314,7 @@ impl PoolableConnection<B> for VConn {
     fn is_open(&self) -> bool {
         let w = self.world.0.lock().unwrap();
         let c = &w.conns[&self.id];
-        c.open && !c.busy && !c.upgraded
+        c.open && !c.upgraded && (w.lax_open || !c.busy)
     }
 
     fn can_share(&self) -> bool {
@@ -414,6 +417,8 @@ impl PollRes {
 }
 
 pub struct PoolCfg {
+    /// connection double: is_open ignores the busy flag
+    pub lax_open: bool,
     pub cap: bool,
     pub max_idle: usize,
     /// 0 = None, 1 = Some(0), 2 = small (40 ms), 3 = large (100 s)
@@ -475,6 +480,7 @@ impl Sim {
         }
         {
             let mut w = world.0.lock().unwrap();
+            w.lax_open = cfg.lax_open;
             for (i, u) in uris.iter().enumerate() {
                 let uri: http::Uri = u.parse().unwrap();
                 w.origin_of_uri.insert(origin_key(&uri), i + 1);
